@@ -212,3 +212,17 @@ Proof.
   - intros w. destruct (w_bonds (node_ids g) (gedges g)) as [bs|] eqn:E; [|discriminate]. intros [= <-].
     cbn [fst snd]. split; [reflexivity|]. apply w_bonds_spec. exact E.
 Qed.
+
+Theorem mol_to_graph_full (m : rmol) :
+  NoDup (map fst (mapped_nodes m)) -> simple (mapped_bonds m) ->
+  mol_to_graph true true m = Some (LG (mapped_nodes m) (mapped_bonds m)) /\
+  amap_id (LG (mapped_nodes m) (mapped_bonds m)) /\
+  (forall n a, In (n, a) (mapped_nodes m) <->
+     exists x, In x (rm_atoms m) /\ is_mapped x = true /\ n = ra_map x /\ a = atom_node x) /\
+  (forall i, lookup_idx i (mapped_ix m) =
+     match nth_error (rm_atoms m) i with Some a => if is_mapped a then Some (ra_map a) else None | None => None end).
+Proof.
+  intros Hn Hs. split; [exact (mol_to_graph_closed m Hn Hs)|]. split.
+  - exact (mol_to_graph_amap_id m _ Hn Hs (mol_to_graph_closed m Hn Hs)).
+  - split; [exact (mapped_nodes_in m)|exact (mapped_ix_spec m)].
+Qed.
